@@ -227,6 +227,11 @@ func c15Init() {
 			u := t["unique"].([]any)[0].([]any)
 			t["unique"].([]any)[0] = append(u, c15Marker+"uniq")
 		})
+		// a list the configuration document can carry although nobody writes
+		// it by hand: what an integration waits for
+		extra("integrations.1.dependencies(user-supplied)", func(r map[string]any) {
+			igAt(r, 1)["dependencies"] = []any{c15Marker + "dependency", "x'; drop table t; -- MRK"}
+		})
 		extra("integrations.1.table.index.extra", func(r map[string]any) {
 			t := igAt(r, 1)["table"].(map[string]any)
 			t["index"] = append(t["index"].([]any), []any{c15Marker + "idx"})
